@@ -7,7 +7,7 @@ snippets from code-object flags, and what the snippets syntactically are -> Extr
 * the snippets themselves are the run-time values of the constants of the three data modules (they are
   f-strings); each is parsed as the body of a function with CPython's own `ast` and reduced to
   (has yield, has yield from, has await, awaits the decorated callable, calls the decorated callable)
-  plus a comment-free structural dump (`ast.dump`) that `Props/C08.lean` compares with the shape the
+  plus a comment-free, local-variable-renamed structural dump (`ast.dump`) that `Props/C08.lean` compares with the shape the
   hand-written model `wrap525` / `wrapDeleg` mirrors.
 """
 from __future__ import annotations
@@ -109,8 +109,26 @@ def snippets() -> dict[str, str]:
     return out
 
 
+def _alpha(body, keep):
+    """rename the snippet's own local variables (assignment targets, `except … as` names) to $0, $1, … in order of
+    first binding, so that a mere renaming is not a structural difference"""
+    order = {}
+    for st in body:
+        for n in ast.walk(st):
+            name = n.id if isinstance(n, ast.Name) and isinstance(n.ctx, ast.Store) else \
+                n.name if isinstance(n, ast.ExceptHandler) else None
+            if name and name not in keep and name not in order:
+                order[name] = f'${len(order)}'
+    for st in body:
+        for n in ast.walk(st):
+            if isinstance(n, ast.Name) and n.id in order:
+                n.id = order[n.id]
+            elif isinstance(n, ast.ExceptHandler) and n.name in order:
+                n.name = order[n.name]
+
+
 def snippet_facts():
-    from beartype._data.check.code.datacodename import ARG_NAME_FUNC
+    from beartype._data.check.code.datacodename import ARG_NAME_FUNC, VAR_NAME_PITH_ROOT
     feats, dumps = [], []
     for name, code in sorted(snippets().items()):
         if not isinstance(code, str):
@@ -133,6 +151,7 @@ def snippet_facts():
             any(isinstance(n, ast.Await) for n in nodes),
             any(isinstance(n, ast.Await) and is_func_call(n.value) for n in nodes),
             any(is_func_call(n) for n in nodes))))
+        _alpha(body, {ARG_NAME_FUNC, VAR_NAME_PITH_ROOT, 'args', 'kwargs'})
         dumps.append((name, '; '.join(ast.dump(st, annotate_fields=False) for st in body)))
     return feats, dumps
 
